@@ -108,7 +108,7 @@ func runC02(w *World) *Result {
 	r.Rule("R-C02-mangle", "helper stored and read under the same (mangled) name within one converter method", 30)
 	r.Rule("R-C02-reg", "return/argument registers: writer and reader agree on stem and index; reads follow the call line", 5)
 	r.Rule("R-C02-frame", "the numeric prefix of function-local names is a counter advanced only by FuncStart, before its first line", 2)
-	r.Rule("R-C02-pop", "every construct stack pushed by an opener is popped by its closer, and a pop removes exactly the top element (the function stack decides whether names are mangled as locals)", 4)
+	r.Rule("R-C02-pop", "every construct stack pushed by an opener is popped by its closer, and a pop removes exactly the top element (the function stack decides whether names are mangled as locals)", 2)
 	r.Rule("R-C02-store", "multi-target assignment: all right-hand sides are evaluated (and snapshotted) before the first store", 1)
 	c02Store(w, r)
 	r.Rule("R-C02-ident", "statements referring to existing variables carry the looked-up definition; lookups find file-prefixed globals from any scope", 6)
